@@ -72,6 +72,7 @@ def run(rep, tier, seed):
             k = json.dumps(c["fs"], sort_keys=True)
             if k not in seen: seen.add(k); uniq.append(c)
         cases = uniq
+    cases.sort(key=lambda c: json.dumps(c['fs'], sort_keys=True))
     log(f"[C20] TLC: {t.generated} states, {len(cases)} file systems in {t.wall:.1f}s")
     tmp = os.path.join(OUT, "tmp"); os.makedirs(tmp, exist_ok=True)
     reqs = []; meta = []
